@@ -54,6 +54,7 @@ static void ham_run(Ctx& c) {
     }
     // (b) diagonalise
     p.H->compute();
+    if (c.k % 2 == 0) { p.H->compute(); p.H->prepare(); p.H->compute(); }   // repeated calls on a computed Hamiltonian are no-ops
     std::vector<double> all;
     double gmin = 1e300;
     for (long b = 0; b < nb; ++b) {
